@@ -2362,10 +2362,11 @@ class CursorResult(Result[Unpack[_Ts]]):
         return self.context.isinsert
 
     def _fetchiter_impl(self) -> Iterator[Any]:
-        fetchone = self.cursor_strategy.fetchone
-
         while True:
-            row = fetchone(self, self.cursor)
+            # the strategy is looked up for every row: it is replaced when
+            # the result is closed or exhausted by another method while
+            # this iterator is still in use
+            row = self.cursor_strategy.fetchone(self, self.cursor)
             if row is None:
                 break
             yield row
